@@ -201,6 +201,16 @@ func buildScriptD(assumes []*Term, o *Obligation, groundOnly bool, depth int) (s
 }
 
 var pushSel = os.Getenv("LNCVC_NOPUSHSEL") == ""
+var shallowDepth = func() int {
+	if v := os.Getenv("LNCVC_SHALLOW"); v != "" {
+		n := 0
+		fmt.Sscanf(v, "%d", &n)
+		if n > 0 {
+			return n
+		}
+	}
+	return 2
+}()
 var pushMemo = map[int]*Term{}
 var selPushMemo = map[[2]int]*Term{}
 
@@ -415,7 +425,7 @@ func main() {
 		gscript, _, glam := buildScript(j.fr.Assumes, j.o, true)
 		sscript, slam := "", false
 		if j.o.Kind != "cover" && j.o.Kind != "vacuity" && os.Getenv("LNCVC_NOSHALLOW") == "" {
-			sscript, _, slam = buildScriptD(j.fr.Assumes, j.o, true, 2)
+			sscript, _, slam = buildScriptD(j.fr.Assumes, j.o, true, shallowDepth)
 		}
 		scripts[j.o] = script
 		if *dump != "" && gscript != "" {
